@@ -340,6 +340,7 @@ def run(args):
                      'block carries); non-trivial = block whose target exists and was judged')
     n = int((300 if args.tier == 'quick' else 12000) * args.scale)
     cases = [(args.seed, i) for i in range(n)]
+    cases = core.replay_cases(args, cases)
     B = 6
     batches = [cases[k:k + B] for k in range(0, len(cases), B)]
     harness = []
